@@ -287,9 +287,9 @@ def bq_sx(b):
     if b[0] == 'cl':
         # the number literal on the left: ('cl', inner, op, literal code points) for `literal OP @inner`
         return '(cl (%s) %d %s)' % (inner, b[2], ' '.join(str(x) for x in b[3]))
-    if b[0] == 'cr':
+    if b[0] in ('cr', 'rl'):
         # an ordering against a `$` path: ('cr', inner, op, root steps); ('re', root steps) / ('rn', root steps): `$ steps` / `!$ steps`
-        return '(cr (%s) %d (%s))' % (inner, b[2], ' '.join('(%s)' % kstep_sx(x) for x in b[3]))
+        return '(%s (%s) %d (%s))' % (b[0], inner, b[2], ' '.join('(%s)' % kstep_sx(x) for x in b[3]))
     if b[0] == 'x':
         # a regular-expression test @inner=~/body/: ('x', inner, body code points)
         return '(x (%s) %s)' % (inner, ' '.join(str(x) for x in b[2]))
